@@ -36,6 +36,7 @@ type BackendRR struct {
 	current      int                 // current weight
 	backend      *backend.BfeBackend // point to BfeBackend
 	inSlowStart  bool                // indicate if in slow-start phase
+	eligible     bool                // eligible (avail and weight > 0) in last smooth selection
 	weightSS     WeightSS            // slow_start related parameters
 }
 
@@ -89,7 +90,9 @@ func (backRR *BackendRR) initSlowStart(ssTime int) {
 	}
 }
 
-func (backRR *BackendRR) updateSlowStart() {
+// updateSlowStart updates weight of backend in slow-start phase.
+// It returns true if the slow-start phase is just finished.
+func (backRR *BackendRR) updateSlowStart() bool {
 	if backRR.inSlowStart {
 		current := time.Duration(backRR.weightSS.final) * time.Since(backRR.weightSS.startTime)
 		if backRR.weightSS.slowStartTime != 0 {
@@ -101,6 +104,8 @@ func (backRR *BackendRR) updateSlowStart() {
 		if backRR.weight >= backRR.weightSS.final {
 			backRR.weight = backRR.weightSS.final
 			backRR.inSlowStart = false
+			return true
 		}
 	}
+	return false
 }
